@@ -443,7 +443,20 @@ def gen_invivo_ops(rng, n_modules=None, size=None):
             else:
                 files = projgen.gen_project(rng, 1, 2)
     ops = [{"op": "file", "path": p, "content": files[p]} for p in sorted(files)]
-    ops.append({"op": "run", "lang": lang, "plugin": rng.random() < 0.5, "sub": rng.choice(["run", "run", "semantic"]),
+    history = None
+    if lang == "python" and rng.random() < 0.35:
+        # the workspace was used before, for a richer project (imports, calls, classes): whatever the new run does not
+        # produce must not be readable from the files afterwards.  The workspace directory may be a link (a common way of
+        # putting it on a bigger disk).
+        prev = projgen.gen_project(rng, 3, 6)
+        history = {"ws": rng.choice(["plain", "symlink", "symlink", "symlink", "symlink_parent"]), "files": [[p_, prev[p_]] for p_ in sorted(prev)],
+                   "flags": sorted(set(rng.sample(["--enable-p2", "--graph"], rng.randint(0, 1))))}
+        if rng.random() < 0.7:
+            # ... and the project under analysis is the same project (same directory, same file names) after an edit that
+            # removed code: no imports, no classes, hardly any call left
+            ops = [{"op": "file", "path": p_, "content": prev[p_] if rng.random() < 0.25 else
+                    rng.choice(["x = 1\n", "def only(alpha):\n    return alpha\n", "VALUE = source()\n"])} for p_ in sorted(prev)]
+    ops.append({"op": "run", "lang": lang, "history": history, "plugin": rng.random() < 0.5, "sub": rng.choice(["run", "run", "semantic"]),
                 "flags": sorted(set(rng.sample(["--enable-p2", "--nomock", "--graph"], rng.randint(0, 2)))),
                 "max_rows": rng.choice([1, 3, 8, 20, 60, 400000]),
                 "caps": {"LRU_CACHE_CAPACITY": rng.choice([1, 2, 3, 20]), "BUNDLE_CACHE_CAPACITY": rng.choice([1, 2]),
@@ -505,10 +518,36 @@ def run_ops(ops, timeout=240):
             return fin
         home = os.path.join(B, "home")
         os.makedirs(home, exist_ok=True)
+        hist = run.get("history")
+        hist_status = None
+        if hist:
+            # an earlier, unmonitored analysis of another project into the same workspace
+            if hist.get("ws") == "symlink":
+                os.makedirs(os.path.join(B, "ws"), exist_ok=True)
+                os.makedirs(os.path.join(B, "bigdisk", "lian_ws_data"), exist_ok=True)
+                os.symlink(os.path.join(B, "bigdisk", "lian_ws_data"), os.path.join(B, "ws", "lian_workspace"))
+            elif hist.get("ws") == "symlink_parent":
+                os.makedirs(os.path.join(B, "bigdisk", "wsparent"), exist_ok=True)
+                os.symlink(os.path.join(B, "bigdisk", "wsparent"), os.path.join(B, "ws"))
+            prev = os.path.join(B, "stage", "proj")          # the same directory name as the project analysed afterwards
+            for path_, content in hist.get("files", []):
+                fp = os.path.join(prev, path_)
+                os.makedirs(os.path.dirname(fp), exist_ok=True)
+                with open(fp, "w", encoding="utf-8") as f:
+                    f.write(content)
+            argv0 = lianrun.build_argv({"sub": "run", "lang": "python", "force": True, "workspace": os.path.join(B, "ws"),
+                                        "inputs": [prev], "flags": list(hist.get("flags", []))}, ctx["settings"])
+            o0 = lianrun.run_forked(ctx["M"], argv0, B, os.path.join(B, "report0.json"), os.path.join(B, "stdio0.txt"), timeout=timeout,
+                                    env={"HOME": home, "MPLCONFIGDIR": os.path.join(home, "mpl")})
+            hist_status = o0.get("status")
         out = lianrun.run_forked(ctx["M"], argv, B, os.path.join(B, "report.json"), os.path.join(B, "stdio.txt"),
                                  before_run=before_run, timeout=timeout,
                                  env={"HOME": home, "MPLCONFIGDIR": os.path.join(home, "mpl")})
         rep = out.pop("report", None) or {}
+        if hist:
+            rep.setdefault("stats", {})
+            rep["stats"]["history_run_" + str(hist_status)] = 1
+            rep["stats"]["history_ws_" + str(hist.get("ws"))] = 1
         out["detail"] = (out.get("detail") or "").replace(B, "<B>")
         try:
             out["stdio"] = open(os.path.join(B, "stdio.txt"), errors="replace").read().replace(B, "<B>")[-4000:]
